@@ -7,7 +7,7 @@ import numpy as np
 
 from sim import filgen
 from sim import transforms as T
-from sim.core import SimLivelock, Violation
+from sim.core import open_reader, SimLivelock, Violation
 from sim.disk import SimDisk
 
 from .c02 import after_list_removal  # noqa: F401
@@ -52,7 +52,7 @@ def generate(rng, tier) -> dict:
     mx = 48 if tier == "quick" else 200
     counts = [rng.choice([1, 2, rng.randint(1, mx // nfiles), rng.randint(1, mx // nfiles)]) for _ in range(nfiles)]
     spec = {"nbits": nbits, "nchans": nchans, "nsamps": counts, "pad": [rng.randint(0, 5) for _ in counts],
-            "vseed": rng.randrange(1 << 16), "mode": "small"}
+            "vseed": rng.randrange(1 << 16), "mode": rng.choice(["small", "small", "small", "gappy"])}
     if rng.random() < (0.02 if tier == "quick" else 0.06):
         nchans = rng.choice([c for c in (64, 128, 256) if (c * nbits) % 8 == 0])
         total = rng.randint(300, 1500)
@@ -225,11 +225,13 @@ def execute(sc, ctx) -> None:
         ctx.probe("sub-byte")
     if spec.get("big"):
         ctx.probe("big-blocks")
+    if spec.get("mode") == "gappy":
+        ctx.probe("data-with-blank-stretches")
     ctx.sig += [name, f"nbits{nbits}", "multi" if len(spec["nsamps"]) > 1 else "single"]
     bounds = list(np.cumsum(spec["nsamps"]))[:-1]
 
     with SimDisk(ctx, sc["faults"]) as sim:
-        reader = FilReader(fs.paths)
+        reader = open_reader("C06", fs.paths)
         delays = None
         if name == "dedisperse":
             delays = np.atleast_1d(np.asarray(reader.header.get_dmdelays(params["dm"])))
